@@ -96,7 +96,7 @@ cdef class QueryHandler:
         question=DNSQuestion,
         answer_set=cython.dict,
         known_answers=DNSRRSet,
-        known_answers_set=cython.set,
+        known_answers_by_name=cython.dict,
         is_unicast=bint,
         is_probe=object,
         now=double
